@@ -98,7 +98,8 @@ def matchGo (ls : Bytes) : List Part → Except Crash Bool
       | .ok s' => matchGo s' rest
     else .ok false
 
-/-- `matchPattern(s, pattern)`: empty pattern matches, a reserved keyword never does. -/
+/-- `matchPattern(s, pattern)`: empty pattern matches, a name whose lower-cased form is a reserved keyword never
+    does (`reserved` is that test, made after `s = strings.ToLower(s)`). -/
 def matchPattern (reserved : Bool) (ls : Bytes) (pat : List Part) : Except Crash Bool :=
   if pat.isEmpty then .ok true else if reserved then .ok false else matchGo ls pat
 
